@@ -260,6 +260,13 @@ class FuncExec(ExprMixin, CallMixin):
         self.exit_count[kind] += 1
         n = self.exit_count[kind]
         ln = st.ghost.get("$lineno")
+        if not self.dry and c.covers:
+            # vacuity guard: the hypotheses accumulated along this exit path (callee postconditions, invariants,
+            # site assumptions) must not be contradictory; per function at least one normal exit must be live
+            cov = Obligation(self.qual, "cover", "%s-path-%d" % (kind, n), st.pc, z3.BoolVal(True), st.trace, ln, expect_sat=True)
+            self.attach_facts(cov)
+            cov.soft = True
+            self.obligations.append(cov)
         if kind == "return":
             env = self.spec_env(st, result=out[1])
             for i, p in enumerate(c.post):
